@@ -146,6 +146,7 @@ def main(argv: list[str]) -> int:
         "samples": core.jsonable((samples + nt_samples)[:10]),
         "labels": dict(sorted(labels.items())),
         "tasks": len(tasks),
+        "slowest_tasks_s": {r["task"]: round(r.get("wall_s", 0.0), 1) for r in sorted(results, key=lambda r: -r.get("wall_s", 0.0))[:6]},
         "exhaustive": bool(getattr(module, "exhaustive", lambda t: False)(tier)),
         "root_causes_found": {s: fail_counts[s] for s in sorted(fail_counts)},
         "known_findings_hit": [s for s, _, _ in known_hit],
